@@ -27,6 +27,7 @@ type C09Op struct {
 	Parts []C09Part `json:"parts,omitempty"` // setup: (id, idx); restore: (id, idx, ready)
 	ID    int       `json:"id,omitempty"`
 	Tmo   int       `json:"tmo,omitempty"`
+	Gap   int       `json:"gap_ms,omitempty"` // setup: real time let pass before it (a set-up superseded well before its deadline)
 }
 
 type C09Obs struct {
@@ -93,7 +94,9 @@ func genC09(r *RNG, idx int) C09Case {
 			}
 			ps = append(ps, C09Part{ID: pool[pi], Idx: ix})
 		}
-		gc += 1 + r.Intn(3)
+		if !r.Chance(1, 5) { // now and then the same hand number is set up again
+			gc += 1 + r.Intn(3)
+		}
 		cur = ps
 		return C09Op{Kind: "setup", GC: gc, Parts: ps}
 	}
@@ -106,6 +109,15 @@ func genC09(r *RNG, idx int) C09Case {
 				c.Ops = append(c.Ops, C09Op{Kind: "ready", ID: cur[r.Intn(len(cur))].ID})
 			} else {
 				c.Ops = append(c.Ops, C09Op{Kind: "ready", ID: 90 + r.Intn(5)})
+			}
+		}
+		if r.Chance(1, 2) {
+			// the set-up is superseded before anything expired: only the new one may fire, once, at ITS deadline
+			op2 := mkSetup()
+			op2.Gap = 450
+			c.Ops = append(c.Ops, op2)
+			if len(cur) > 0 && r.Chance(1, 2) {
+				c.Ops = append(c.Ops, C09Op{Kind: "ready", ID: cur[r.Intn(len(cur))].ID})
 			}
 		}
 		c.Ops = append(c.Ops, C09Op{Kind: "timeout"})
@@ -190,6 +202,9 @@ func runC09Case(c *C09Case, slow int) {
 		wait := settle
 		switch op.Kind {
 		case "setup":
+			if op.Gap > 0 {
+				time.Sleep(time.Duration(op.Gap) * time.Millisecond)
+			}
 			parts := map[string]int{}
 			for _, p := range op.Parts {
 				parts[pid(p.ID)] = p.Idx
@@ -223,13 +238,21 @@ func runC09Case(c *C09Case, slow int) {
 			armedAt = time.Now()
 		}
 		var got []fireRec
+		early := 0
 		if op.Kind == "timeout" {
-			// return as soon as the callback is seen, but not before the timer can have fired
-			got = collect(wait)
+			// nothing may fire before the CURRENT set-up's deadline (a superseded set-up's timer must be dead)
+			before := time.Until(armedAt.Add(time.Duration(c.Tmo)*time.Second - 250*time.Millisecond))
+			if before > 0 {
+				early = len(collect(before))
+			}
+			got = collect(time.Until(armedAt.Add(time.Duration(c.Tmo)*time.Second + time.Duration(350*slow)*time.Millisecond)))
 		} else {
 			got = collect(wait)
 		}
 		switch {
+		case early > 0:
+			obs.Out = "many" // fired before the deadline of the set-up in force (and possibly again at it)
+			obs.NFires = early + len(got)
 		case isErr:
 			obs.Out = "err"
 		case len(got) == 0:
